@@ -130,7 +130,7 @@ class Contract:
                  returns=None, modular=(), name=None, closure_env=None,
                  decreases=None, invariants=None, notes='', bound_args=None,
                  klass='PROVED', frame=None, when=None, free_vars=(),
-                 native_call=None):
+                 native_call=None, apply_decorators=False):
         self.target = target
         self.prop = prop
         self.params = params
@@ -150,6 +150,7 @@ class Contract:
         self.when = when
         self.free_vars = tuple(free_vars)
         self.native_call = native_call
+        self.apply_decorators = apply_decorators
 
 
 class Lemma:
